@@ -620,6 +620,16 @@ impl Harness {
         });
     }
 
+    /// one rule set per endpoint (WireServer, IMDS, HostGAPlugin)
+    pub fn set_rules_each(&self, ws: &dyn Fn() -> Option<AuthorizationItem>, imds: &dyn Fn() -> Option<AuthorizationItem>, hostga: &dyn Fn() -> Option<AuthorizationItem>) {
+        let kk = self.shared.get_key_keeper_shared_state();
+        self.rt.block_on(async {
+            kk.set_wireserver_rules(ws()).await.expect("set_wireserver_rules");
+            kk.set_imds_rules(imds()).await.expect("set_imds_rules");
+            kk.set_hostga_rules(hostga()).await.expect("set_hostga_rules");
+        });
+    }
+
     pub fn set_key(&self, key: Option<Key>) {
         let kk = self.shared.get_key_keeper_shared_state();
         self.rt.block_on(async {
